@@ -33,7 +33,7 @@ fn one(run: &Run, acc: &mut Acc, sel: &Sel, ctxs: &[(Vec<Seg>, &DocCtx, &str)], 
         segs.push(if last_desc { Seg::desc(vec![sel.clone()]) } else { Seg::child(vec![sel.clone()]) });
         let ast = Query::root(segs);
         let q = render::query(&ast);
-        let o = crate::watch::guarded(|| format!("{} on {}", q, dc.doc), || check_case(run, acc, &q, &ast, dc, Mode::NodesAndPaths, class));
+        let o = crate::watch::guarded(|| json!({"query": q, "doc": dc.doc}).to_string(), || check_case(run, acc, &q, &ast, dc, Mode::NodesAndPaths, class));
         if let Outcome::Agree(n) = o {
             if n > 0 {
                 acc.nontrivial += 1;
@@ -49,7 +49,7 @@ fn one(run: &Run, acc: &mut Acc, sel: &Sel, ctxs: &[(Vec<Seg>, &DocCtx, &str)], 
         let jq = JpQuery::new(vec![Segment::Selector(isel)]);
         let ast = Query::root(vec![Seg::child(vec![sel.clone()])]);
         let q = render::query(&ast);
-        let out = crate::watch::guarded(|| format!("built {} on {}", q, dc.doc), || imp::run_parsed(&jq, dc.doc, &dc.am));
+        let out = crate::watch::guarded(|| json!({"query": q, "doc": dc.doc, "built": true}).to_string(), || imp::run_parsed(&jq, dc.doc, &dc.am));
         check_obs(run, acc, &q, &ast, dc, &out, Mode::NodesAndPaths, "programmatic");
         acc.bump("programmatic_queries", 1);
     }
@@ -70,7 +70,8 @@ pub fn run(tier: &str) -> i32 {
         crate::watch::start(Duration::from_secs(20), move |case| {
             let path = format!("{}/replays/C11-timeout.json", rdir);
             let _ = std::fs::create_dir_all(format!("{}/replays", rdir));
-            let _ = std::fs::write(&path, json!({"kind": "timeout", "property": "C11", "case": case}).to_string());
+            let c: Value = serde_json::from_str(case).unwrap_or(json!({"text": case}));
+            let _ = std::fs::write(&path, json!({"kind": "timeout", "property": "C11", "case": c}).to_string());
             println!("VIOLATION property=C11 replay={}", path);
             println!("  no result within the 20 s horizon: {}", case);
         });
